@@ -162,9 +162,15 @@ Definition d_contig (a : list Z) : list Z :=
   [dictLimit w2; lowLimit w2; idx w2 (nthz a 3); zb (window_hasExtDict w2); idx w2 (nextSrc w2)].
 
 (* 17 (round 3): the stable-input-buffer session (Det/StableIn.v).  args: old(0/1) blockSize, then quadruples src size pos dir(0 continue,
-   1 flush, 2 end) -> per call: accepted, lo - src, hi - src of the bytes handed to the block compressor; then BLOCKSIZE_MAX *)
-Fixpoint quads (l : list Z) : list StableIn.call :=
-  match l with a :: b :: c :: e :: t => StableIn.mkC a b c (if e =? 0 then StableIn.DContinue else if e =? 1 then StableIn.DFlush else StableIn.DEnd) :: quads t | _ => [] end.
+   1 flush, 2 end, 3 = ZSTD_CCtx_reset(session_only), the other three ignored) -> per operation: accepted, lo - src, hi - src of the bytes
+   handed to the block compressor, streamStage != init, stableIn_notConsumed; then BLOCKSIZE_MAX *)
+Fixpoint quads (l : list Z) : list StableIn.sop :=
+  match l with
+  | a :: b :: c :: e :: t =>
+      (if e =? 3 then StableIn.SReset
+       else StableIn.SCall (StableIn.mkC a b c (if e =? 0 then StableIn.DContinue else if e =? 1 then StableIn.DFlush else StableIn.DEnd))) :: quads t
+  | _ => []
+  end.
 Definition d_stablein (a : list Z) : list Z :=
   StableIn.strace (bz (nthz a 0)) (nthz a 1) StableIn.s_fresh (quads (skipn 2 a)) ++ [StableIn.BLOCKSIZE_MAX].
 
